@@ -66,7 +66,9 @@ def subset_case(part, item):
     while frontier:
         nxt = []
         for hist in frontier:
-            for op in OPS:
+            for op, reads in itertools.product(OPS, (False, True)):
+                # reads: the caller also reads every property after every
+                # operation (a logging loop), not only at the end
                 h = hist + (op,)
                 pre = mk_precond(init=init)
                 sch = LambdaParamScheduler(pre, **kw)
@@ -84,6 +86,9 @@ def subset_case(part, item):
                     else:
                         sch.step(int(o[4:]))
                     apply_ref(ref, o, subset, lams)
+                    if reads:
+                        for p in PARAMS:
+                            getattr(pre, p)
                 if not ok:
                     continue
                 part.count('evaluations')
@@ -98,12 +103,12 @@ def subset_case(part, item):
                         part.violation(
                             f'{kind}:{p}',
                             f'subset={sorted(subset)} init={init} history={h}'
-                            f': {p}={a!r} expected {b!r}',
+                            f' reads-between={reads}: {p}={a!r} expected {b!r}',
                             {'kind': 'sched', 'subset': sorted(subset),
                              'depth': len(h), 'seed': seed, 'init': init})
                         return
                 k = tuple(sorted(got.items()))
-                if k not in seen:
+                if k not in seen and not reads:
                     seen.add(k)
                     part.count('states')
                     if len(h) < depth:
@@ -200,7 +205,7 @@ def main(run: core.Run):
         'step(7), advance the preconditioner step}} for all 64 subsets of '
         'scheduled parameters with distinct strictly step-dependent '
         'non-integer factor functions, for float-valued and int-valued '
-        'initial constants, in lock-step with a dictionary '
+        'initial constants, each history once with the properties read only at the end and once read after every operation, in lock-step with a dictionary '
         'reference (exact float equality; states deduplicated by '
         'hyper-parameter tuple); constructor: 7 x 64 (callable parameter, '
         f'subset) pairs; exp_decay_factor_averaging for every k in -3..{kmax}'
